@@ -11,7 +11,7 @@ from sa.exc import CANCELLED
 from sa.flow import FnExit, Interp, TestAtom, WithEnter, call_of
 
 CLAIM = {
-    "text": "Decides plaintext confinement, flush ordering and lock separation of the TLS transports: in AsyncTLSStreamTransport the only value that ever reaches the wrapped transport's send_all / send_all_from_iterable is the whole content of the outgoing BIO (`self._write_bio.read()` with no size bound, in the same expression), the plaintext parameters and the plaintext backlog flow only into the SSL object's write, bytes read from the wrapped transport flow only into the incoming BIO, and results handed to the caller come from the SSL object; in the retry loop pending ciphertext is flushed (under nothing but `_write_bio.pending`) before the transport is read on WANT_READ, unconditionally on WANT_WRITE, and before a successful result is returned; the send and receive directions are guarded by two distinct fair locks that are never held together (a parked reader cannot block writers); on OSError / SSLError both BIOs are marked EOF before the error propagates; the blocking SSLStreamTransport never touches the raw socket after wrapping it. (drain) every send entry point that queues plaintext reaches, on every normal path to its return, the retry call that applies the write-all helper to the backlog itself, and the write-all loop can only end on an empty backlog (no break/return, the head is replaced by its unsent suffix or removed). A 0-byte read marks the incoming BIO EOF; a chunk leaves the plaintext backlog only after SSLObject.write() accepted it; on the wrapped asyncio transport the lent read buffer is withdrawn on every exit and by the delivery callback, and every record handed to transport.write() is followed - not preceded - by the awaited drain.",
+    "text": "Decides plaintext confinement, flush ordering and lock separation of the TLS transports: in AsyncTLSStreamTransport the only value that ever reaches the wrapped transport's send_all / send_all_from_iterable is the whole content of the outgoing BIO (`self._write_bio.read()` with no size bound, in the same expression), the plaintext parameters and the plaintext backlog flow only into the SSL object's write, bytes read from the wrapped transport flow only into the incoming BIO, and results handed to the caller come from the SSL object; in the retry loop pending ciphertext is flushed (under nothing but `_write_bio.pending`) before the transport is read on WANT_READ, unconditionally on WANT_WRITE, and before a successful result is returned; the send and receive directions are guarded by two distinct fair locks that are never held together (a parked reader cannot block writers); on OSError / SSLError both BIOs are marked EOF before the error propagates; the blocking SSLStreamTransport never touches the raw socket after wrapping it. (drain) every send entry point that queues plaintext reaches, on every normal path to its return, the retry call that applies the write-all helper to the backlog itself, and the write-all loop can only end on an empty backlog (no break/return, the head is replaced by its unsent suffix or removed). A 0-byte read marks the incoming BIO EOF; a chunk leaves the plaintext backlog only after SSLObject.write() accepted it; on the wrapped asyncio transport the lent read buffer is withdrawn on every exit and by the delivery callback, and every record handed to transport.write() is followed - not preceded - by the awaited drain. Round 4 (C08.recv): the byte buffers of the TLS transport and of the asyncio stream protocol are allocated per instance (no memoised factory, module-level object or mutable default); the pause/resume pairing and read water marks of the asyncio stream protocol under the TLS transport are decided here as well.",
     "note": "Trusted: the ssl module encrypts what goes through SSLObject/MemoryBIO. Not decided: byte transparency of the decrypted stream, liveness under all fragmentations.",
     "technique": "taint (source/sink) queries and reaching-definition shape checks on the ast program database, ordering typestate by abstract interpretation, lock-held analysis",
 }
@@ -490,6 +490,9 @@ def check_locks(eng, run):
 
 
 def run(eng, run):
+    from sa.anchors import verify as _verify_anchor_names
+    _verify_anchor_names(eng, run)
+    from sa.report import RuleAlias
     run.not_decided += NOT_DECIDED
     check_conf(eng, run)
     check_flush(eng, run)
@@ -498,6 +501,13 @@ def run(eng, run):
     check_remove_after_write(eng, run)
     check_underlying(eng, run)
     check_locks(eng, run)
+    from sa.analyses.sharing import check_private_buffers
+    check_private_buffers(eng, run, "C08.recv", ("easynetwork.lowlevel.api_async.transports", "easynetwork.lowlevel.api_async.backend._asyncio.stream"), 2)
+    # the TLS transport reads its ciphertext through the asyncio stream protocol: its pause/resume pairing and water marks are
+    # part of "no deadlock over any fragmentation" (a paused transport that is never resumed starves the TLS reader)
+    from rules import c03
+    c03.check_flow(eng, RuleAlias(run, "C08.recv"))
+    c03.check_water_marks(eng, run, rule="C08.recv")
 
 
 # ---------------------------------------------------------------------------------------------- self-test corpus
